@@ -18,7 +18,8 @@ EXPLANATION = (
     "FREQNAMES[i] to i, the frequency constants are 0..6 in FREQNAMES order, _weekday_map maps the two-letter names "
     "of weekday.__repr__ to 0..6. C13.EMIT: FREQ always; INTERVAL iff != 1; COUNT iff `is not None` (0 is a valid "
     "count, sibling sites test identity); UNTIL iff set; BY-parts iff the recorded value is non-empty; nth weekdays "
-    "as {n:+d}{WD}. C13.WDAY: in the '+1MO' form the ordinal and the weekday code are the complementary slices "
+    "as {n:+d}{WD}. C13.YEARPAD: no statement that writes DTSTART / UNTIL uses a %Y-family strftime directive (not "
+    "zero-padded below year 1000 on glibc). C13.WDAY: in the '+1MO' form the ordinal and the weekday code are the complementary slices "
     "[:i] / [i:] at the index where the scan over the WHOLE token stopped, the 'MO(+1)' form splits at '('; the "
     "result goes through weekdays[_weekday_map[w]](n). C13.TZID: the TZID scanner accepts every character except "
     "':' in a name (regex AST). C13.SET: compatible implies forceset and unfold; the set branch is taken for "
